@@ -26,17 +26,40 @@ using idx_t = multi::index;
 
 constexpr int MAXD = 5;
 
-template<multi::dimensionality_type D> struct VS { multi::layout_t<D> lay; VT* base; };
+// Pointer type of the views (C11): PTR_KIND 0 = raw VT*, 1 = minimal offset pointer fancy::xptr (no conversion to or from
+// VT*), 2 = the same with bounds tracking.  `g_vr_origin` is the start of the VT address space (offset 0).
+#ifndef PTR_KIND
+#define PTR_KIND 0
+#endif
+inline VT* g_vr_origin = nullptr;
+#if PTR_KIND == 0
+using VPtr = VT*;
+template<class U> using PtrOf = U*;
+template<class U> VT* to_mut(U* p) { return const_cast<VT*>(static_cast<VT const*>(p)); }
+inline VPtr make_ptr(long off) { return g_vr_origin + off; }
+template<class U> PtrOf<U> make_ptr_of(U* origin, long off) { return origin + off; }
+inline long off_of(VT const* p) { return static_cast<long>(p - g_vr_origin); }
+#else
+#include "fancy_ptr.hpp"
+using VPtr = fancy::xptr<VT>;
+template<class U> using PtrOf = fancy::xptr<U>;
+using fancy::to_mut;
+inline VPtr make_ptr(long off) { return VPtr::at(off); }
+inline long off_of(VT const* p) { return static_cast<long>(p - g_vr_origin); }
+template<class U> long off_of(fancy::xptr<U> const& p) { return static_cast<long>(p.off()); }
+#endif
+
+template<multi::dimensionality_type D> struct VS { multi::layout_t<D> lay; VPtr base; };
 using AnyView = std::variant<VS<0>, VS<1>, VS<2>, VS<3>, VS<4>, VS<5>, VS<6>>;
 
-template<multi::dimensionality_type D> auto mk(VS<D> const& s) { return multi::subarray<VT, D, VT*>(s.lay, s.base); }
+template<multi::dimensionality_type D> auto mk(VS<D> const& s) { return multi::subarray<VT, D, VPtr>(s.lay, s.base); }
 
 template<class V> auto store(V&& v) -> decltype(std::decay_t<V>::rank_v, AnyView{}) {
 	constexpr auto D = std::decay_t<V>::rank_v;
-	return AnyView{VS<D>{v.layout(), const_cast<VT*>(static_cast<VT const*>(v.base()))}};
+	return AnyView{VS<D>{v.layout(), to_mut(v.base())}};
 }
-inline AnyView store(VT& e) { return AnyView{VS<0>{multi::layout_t<0>{multi::extensions_t<0>{}}, &e}}; }
-inline AnyView store(VT const& e) { return AnyView{VS<0>{multi::layout_t<0>{multi::extensions_t<0>{}}, const_cast<VT*>(&e)}}; }
+inline AnyView store(VT& e) { return AnyView{VS<0>{multi::layout_t<0>{multi::extensions_t<0>{}}, make_ptr(off_of(&e))}}; }
+inline AnyView store(VT const& e) { return AnyView{VS<0>{multi::layout_t<0>{multi::extensions_t<0>{}}, make_ptr(off_of(&e))}}; }
 
 inline int rank_of(AnyView const& av) { return static_cast<int>(av.index()); }
 
@@ -71,9 +94,10 @@ inline void box_rec(std::vector<Ex> const& ex, std::size_t k, std::vector<long>&
 }
 inline std::vector<std::vector<long>> box(std::vector<Ex> const& ex) { std::vector<std::vector<long>> out; std::vector<long> cur; box_rec(ex, 0, cur, out); return out; }
 
+// address of the element at a full index tuple, as a raw pointer (taken from the reference the library hands out)
 template<class V> auto* addr_bracket(V&& v, long const* idx) {
 	constexpr auto D = std::decay_t<V>::rank_v;
-	if constexpr(D == 0) { return v.base(); }
+	if constexpr(D == 0) { return &*v.base(); }
 	else if constexpr(D == 1) { return &v[idx[0]]; }
 	else { return addr_bracket(v[idx[0]], idx + 1); }
 }
@@ -196,16 +220,16 @@ template<multi::dimensionality_type D> bool gen_op(VS<D> const& s, Rng& rng, Op&
 }
 inline bool gen_any(AnyView const& av, Rng& rng, Op& op, int maxd) { return std::visit([&](auto const& s) { return gen_op(s, rng, op, maxd); }, av); }
 
-template<multi::dimensionality_type D> AnyView make_root(std::vector<Ex> const& ex, VT* base) {
+template<multi::dimensionality_type D> AnyView make_root(std::vector<Ex> const& ex, VPtr base) {
 	auto xs = std::apply([](auto... e) { return multi::extensions_t<D>{e...}; }, [&] {
 		std::array<multi::iextension, static_cast<std::size_t>(D)> arr;
 		for(std::size_t k = 0; k < static_cast<std::size_t>(D); ++k) arr[k] = multi::iextension{ex[k].first, ex[k].last};
 		return arr; }());
-	multi::array_ref<VT, D, VT*> ref(base, xs);
+	multi::array_ref<VT, D, VPtr> ref(base, xs);
 	return store(ref());
 }
 
-inline AnyView make_root_any(std::vector<Ex> const& ex, VT* base) {
+inline AnyView make_root_any(std::vector<Ex> const& ex, VPtr base) {
 	switch(ex.size()) {
 		case 1: return make_root<1>(ex, base);
 		case 2: return make_root<2>(ex, base);
